@@ -15,6 +15,8 @@ TARGET_PARTS = ('beartype/_conf/confmain.py', 'beartype/_util/cache/map/utilmapu
 # files traced only around the lines that take an object from a pool or give one back
 PARTIAL_PARTS = ('beartype/_check/code/codemain.py', 'beartype/_check/error/errmain.py')
 POOL_FILES = ('calldatadecorfunc.py', 'utilcachepool.py', 'codemain.py')
+CLAW_FILES = ('clawpkgmain.py', 'clawpkgtrie.py')
+DIRECTED_FILES = {'register_conflict': CLAW_FILES}     # per scenario; the object pools otherwise
 _PARTIAL_LINES = {}
 
 
@@ -39,8 +41,9 @@ class Scheduler:
     """token passing: only the thread holding the token runs traced code; a thread blocked on a real lock
     (it does not come back within `patience`) is left alone and another one is scheduled"""
 
-    def __init__(self, seed, patience=0.02, plan=None):
+    def __init__(self, seed, patience=0.02, plan=None, files=POOL_FILES):
         self.rng = random.Random(seed)
+        self.files = files          # the only files traced under a plan
         self.plan = plan            # None: uniform random; 'sequential'; or a directed plan (see choose)
         self.phase = 0
         self.at = {}                # tid -> (file, line) it is about to execute
@@ -68,7 +71,7 @@ class Scheduler:
 
         def glob(frame, event, arg):
             fn = frame.f_code.co_filename
-            if self.plan is not None and not fn.endswith(POOL_FILES):
+            if self.plan is not None and not fn.endswith(self.files):
                 return None            # directed schedules only need the pool-handling files
             if (fn.endswith(TARGET_PARTS) or fn.endswith(PARTIAL_PARTS)) and frame.f_code.co_name not in ('pause', 'tracer', 'local', 'glob', 'worker'):
                 return local
@@ -221,6 +224,30 @@ def scenario(name, seed):
                     out.append('a registration was lost')
             return out
         return fns, judge
+    if name == 'register_conflict':
+        # a two-package registration racing with a conflicting registration of its second package: either order is fine, but a
+        # rejected registration must leave nothing behind
+        from beartype.claw import beartype_package, beartype_packages
+        from beartype.claw._package.clawpkgtrie import get_package_conf_or_none
+        x, pk = 'c15cx_%d' % (seed % 100000), 'c15cp_%d' % (seed % 100000)
+        ca = BeartypeConf(is_debug=False, claw_skip_package_names=('c15a_%d' % seed,))
+        cb = BeartypeConf(is_debug=False, claw_skip_package_names=('c15b_%d' % seed,))
+        fns = [(lambda: beartype_packages((x, pk), conf=ca)), (lambda: beartype_package(pk, conf=cb))]
+
+        def judge(res):
+            a_ok, b_ok = res[0][0] == 'ok', res[1][0] == 'ok'
+            x_conf, p_conf = get_package_conf_or_none(x + '.mod'), get_package_conf_or_none(pk + '.mod')
+            # the registry holds the hookable form of a configuration: recognise whose it is by the skip list
+            who = lambda c: None if c is None else ('A' if c.claw_skip_package_names == ca.claw_skip_package_names else  # noqa: E731
+                                                    'B' if c.claw_skip_package_names == cb.claw_skip_package_names else '?')
+            if a_ok and not b_ok and who(x_conf) == 'A' and who(p_conf) == 'A':
+                return []          # the order A, B
+            if b_ok and not a_ok and x_conf is None and who(p_conf) == 'B':
+                return []          # the order B, A
+            return ['no sequential order of the two registrations gives this outcome: A %s, B %s, first package %s, second package under %s' % (
+                'ok' if a_ok else 'rejected', 'ok' if b_ok else 'rejected', 'registered' if x_conf is not None else 'not registered',
+                who(p_conf) or 'nobody')]
+        return fns, judge
     if name == 'check':
         from typing import Literal, Tuple
         fresh = Tuple[Literal['c%d' % seed]]          # a hint nobody checked before: the check is really generated
@@ -279,17 +306,18 @@ def directed(case):
     """systematic single-preemption schedules around the object pools: thread 0 is parked just before each line it executes in
     the pool-handling files, thread 1 runs a quarter / half / three quarters of its own work, thread 0 finishes, the rest finish"""
     name, seed = case['scenario'], case['seed']
+    files = DIRECTED_FILES.get(name, POOL_FILES)
     for warm in range(2):            # the first runs fill process-wide memos; positions are stable afterwards
         fns, judge = scenario(name, seed * 7 + warm)
-        Scheduler(seed, plan='sequential').run(fns)
+        Scheduler(seed, plan='sequential', files=files).run(fns)
     fns, judge = scenario(name, seed * 7 + 2)
-    dry = Scheduler(seed, plan='sequential')
+    dry = Scheduler(seed, plan='sequential', files=files)
     dry.run(fns)
     per_thread = max(1, dry.tsteps.get(1, 1))
     targets, occ = [], {}
     for pos in dry.log0:
         occ[pos] = occ.get(pos, 0) + 1
-        if pos[0].endswith(POOL_FILES) and occ[pos] <= 2:
+        if pos[0].endswith(files) and occ[pos] <= 2:
             targets.append((pos[0], pos[1], occ[pos]))
     rng = random.Random(seed)
     if len(targets) > case.get('max_targets', 10 ** 9):
@@ -298,17 +326,17 @@ def directed(case):
            'targets': len(targets), 'failing_plans': []}
     k = 3
     for (fn, line, n) in targets:
-        for frac in (0.25, 0.5, 0.75):
+        for frac in (0.25, 0.5, 0.75, 100.0):        # the last: thread 1 runs to its end (or until it blocks on a lock thread 0 holds)
             plan = {'file': fn, 'line': line, 'occ': n, 'other_steps': max(1, int(per_thread * frac))}
             k += 1
             fns, judge = scenario(name, seed * 7 + k)
-            sched = Scheduler(seed, plan=plan)
+            sched = Scheduler(seed, plan=plan, files=files)
             results, finished = sched.run(fns)
             res['schedules'] += 1
             res['steps'] += sched.steps
             res['switches'] += sched.switches
             probs = judge(results) if finished else ['not all threads finished (deadlock or livelock under the scheduler)']
-            excs = [v[1] for v in results.values() if v[0] == 'exc']
+            excs = [v[1] for v in results.values() if v[0] == 'exc'] if name != 'register_conflict' else []
             if probs or excs:
                 short = {'file': fn[fn.rfind('beartype/'):], 'line': line, 'occ': n, 'other_steps': plan['other_steps']}
                 res['failing_plans'].append(short)
